@@ -110,6 +110,13 @@ def build_pool(tmp):
     nc4 = open([e for e in pool if e['tag'] == 'nc4.ncf'][0]['path'], 'rb').read()
     for name, ext in (('cuthdf.nc', True), ('cuthdf_noext', False)):
         pool.append({'tag': name, 'fmt': 'none', 'path': put(name, nc4[:600]), 'ext': ext, 'selfdesc': False, 'kw': {}})
+    # ICARTT whose second line (the PI name) holds a two-byte UTF-8 character across bytes 13|14, i.e. across
+    # the start of the field in which another format keeps an ASCII label
+    l1, l2, rest2 = ict.split(b'\n', 2)
+    pad = b'Ib\xc3\xa1\xc3\xb1ez, Ana'        # 'Ibáñez, Ana'
+    extra = max(13 - (len(l1) + 1) - 4, 0)    # 'Ibá' is 4 bytes: pad so that the 'ñ' starts at byte 13
+    name = b'X' * extra + pad
+    add('ict_utf8', 'ffi1001', 'ffi1001', l1 + b'\n' + name + b'\n' + rest2)
     # files with a recognisable extension that no reader can open (detection fails part-way)
     for name in ('cut.humidity', 'cut.nc', 'cut.uamiv'):
         pool.append({'tag': name, 'fmt': 'none', 'path': put(name, b'abc'), 'ext': True, 'selfdesc': False, 'kw': {}})
@@ -210,7 +217,7 @@ def events(pool):
     return ev
 
 
-REDUCED = ('irregular.bpch', 'irregular_noext', 'gc_missing/punch11.bpch', 'gc_missing/punch11_noext', 'cuthdf.nc', 'cuthdf_noext', 'nc4.ncf', 'nc4_noext', 'probe.sonde', 'avg.uamiv', 'kv.vertical_diffusivity', 'hum.humidity', 'ict.ffi1001', 'nc3.nc', 'io.ioapi', 'punch.bpch',
+REDUCED = ('ict_utf8_noext', 'irregular.bpch', 'irregular_noext', 'gc_missing/punch11.bpch', 'gc_missing/punch11_noext', 'cuthdf.nc', 'cuthdf_noext', 'nc4.ncf', 'nc4_noext', 'probe.sonde', 'avg.uamiv', 'kv.vertical_diffusivity', 'hum.humidity', 'ict.ffi1001', 'nc3.nc', 'io.ioapi', 'punch.bpch',
            'ict_crlf.ffi1001', 'cut.humidity', 'cut.nc', 'cut.uamiv', 'kv_noext', 'nc3_noext', 'junk_noext',
            'shared<-uamiv', 'shared<-nc3')
 REDUCED_EXPLICIT = ('avg.uamiv', 'ict.ffi1001', 'hum.humidity', 'kv_noext', 'nc3_noext')
